@@ -178,12 +178,25 @@ func C06CLI(r *simkit.Run) {
 		names := sqlFiles(m)
 		if len(names) == 0 || t.Chance("writer-step", 3, 7) {
 			next++
+			// The name a user gives a new file is free text: it may hold blanks and may read like a
+			// part of a sum-file line.
+			label := fmt.Sprintf("n%03d", next)
+			switch t.Weighted("file-label", 6, 1, 1, 1) {
+			case 1:
+				label = "h1:" + label
+				r.Probe("file-label-reads-like-a-sum-entry")
+			case 2:
+				label += "_h1:x"
+				r.Probe("file-label-reads-like-a-sum-entry")
+			case 3:
+				label = "add " + label
+			}
 			var res CmdResult
 			var what string
 			switch t.Weighted("writer", 3, 2, 3) {
 			case 0:
 				what = "migrate-new"
-				res = w.Atlas(nil, "migrate", "new", fmt.Sprintf("n%03d", next), "--dir", w.DirURL())
+				res = w.Atlas(nil, "migrate", "new", label, "--dir", w.DirURL())
 				// `migrate new` refuses a tampered directory: then nothing is written.
 			case 1:
 				what = "migrate-hash"
@@ -196,7 +209,7 @@ func C06CLI(r *simkit.Run) {
 					ts = append(ts, sTable{Name: fmt.Sprintf("d%d", i)})
 				}
 				os.WriteFile(schemaPath, []byte(hclOf(ts)), 0o644)
-				res = w.Atlas(nil, "migrate", "diff", fmt.Sprintf("n%03d", next), "--dir", w.DirURL(), "--to", "file://"+schemaPath, "--dev-url", w.DevURL())
+				res = w.Atlas(nil, "migrate", "diff", label, "--dir", w.DirURL(), "--to", "file://"+schemaPath, "--dev-url", w.DevURL())
 			}
 			register()
 			r.Fired("writer/" + what)
